@@ -51,6 +51,31 @@ ValConforms(t, v, subsels) ==
        IF Schema.types[n].kind \in {"scalar", "enum"} THEN v[1] # "list" /\ v[1] # "obj" /\ LeafConforms(n, v)
        ELSE v[1] = "obj" /\ \E o \in PossibleObjects(n) : ObjConforms(o, subsels, v)
 
+\* ---- with_partial_data (beyond the listed properties, X02): the overlay's values take precedence ----------------------
+\* Covers(v, o): wherever the overlay o has a value at a position that exists in the response v, v carries it: leaves
+\* verbatim, lists with the overlay's length and order, objects key by key (keys of the overlay that the chosen
+\* concrete type does not request are ignored; a `__typename` entry of the overlay pins the concrete type)
+RECURSIVE Covers(_, _)
+HasKey(pairs, k) == \E j \in 1..Len(pairs) : pairs[j][1] = k
+Covers(v, o) ==
+  IF o[1] = "obj"
+  THEN /\ v[1] = "obj"
+       /\ \A j \in 1..Len(o[2]) : HasKey(v[2], o[2][j][1]) => Covers(v[2][KeyIndex(v[2], o[2][j][1])][2], o[2][j][2])
+  ELSE IF o[1] = "list"
+  THEN v[1] = "list" /\ Len(v[2]) = Len(o[2]) /\ \A i \in 1..Len(o[2]) : Covers(v[2][i], o[2][i])
+  ELSE v = o
+
+\* the same, ignoring the response keys in `skip` (used to attribute a finding: aliased __typename entries)
+RECURSIVE CoversExcept(_, _, _)
+CoversExcept(v, o, skip) ==
+  IF o[1] = "obj"
+  THEN /\ v[1] = "obj"
+       /\ \A j \in 1..Len(o[2]) : (HasKey(v[2], o[2][j][1]) /\ o[2][j][1] \notin skip)
+                                      => CoversExcept(v[2][KeyIndex(v[2], o[2][j][1])][2], o[2][j][2], skip)
+  ELSE IF o[1] = "list"
+  THEN v[1] = "list" /\ Len(v[2]) = Len(o[2]) /\ \A i \in 1..Len(o[2]) : CoversExcept(v[2][i], o[2][i], skip)
+  ELSE v = o
+
 ResponseConforms(op, data) == ObjConforms(X!RootType(op), op.sels, data)
 
 \* attribution switch for a finding: the same predicate over the schema whose nested list types are flattened to
